@@ -1,11 +1,86 @@
-import TwigModel.Scan
+/-
+  C14 — Template length and tag position do not change how a template is read (scan level).
+
+  * the two opener searches, the two end-of-tag searches and hence the two tokenizers agree on
+    every byte string (including error results); the 4096-byte switch is unobservable;
+  * the scanning loop does not depend on its fuel once the fuel exceeds the input length;
+  * literal padding in front of / between constructs changes the token stream by exactly that text.
+-/
+import TwigProofs.Lemmas.Scan
 import TwigGen.Tokens
 namespace Twig
 
-/-- placeholder until the scan proofs land: the generated token constants are the model's -/
+/-- the generated token constants / tokenizer switch (extracted from the Go source) are the model's -/
 theorem C14_facts_tokens :
     TwigGen.Tokens.tokenConsts.map (·.2) = List.range 17 ∧
     TwigGen.Tokens.tokenizerThreshold = (sizeThreshold : Int) ∧
     TwigGen.Tokens.optimizedAboveThreshold = true := by decide
+
+/-- min-of-five `strings.Index` searches = the single-pass `FindNextTag`. -/
+theorem C14_findOpener_agree : ∀ s, findOpenerHtml s = findOpenerOpt s := findOpenerHtml_eq_opt
+
+/-- the two end-of-tag searches agree, for every tag kind and every byte string -/
+theorem C14_tagEnd_agree : ∀ k rest, tagEndHtml k rest = tagEndOpt k rest := by
+  intro k rest; rw [tagEndHtml_eq_spec, tagEndOpt_eq_spec]
+
+/-- The two tokenizers produce the same result (token stream or error) on every byte string. -/
+theorem C14_scanners_agree : ∀ s, scanOpt s = scanHtml s := fun s => (scanHtml_eq_scanOpt s).symm
+
+/-- hence the 4096-byte switch in `Parser.Parse` is unobservable -/
+theorem C14_scan_threshold_irrelevant : ∀ s, scan s = scanHtml s := by
+  intro s; rw [scan_eq_scanOpt, scanHtml_eq_scanOpt]
+
+/-- fuel adequacy: the loop's result does not depend on the fuel once it exceeds the input length
+    (for arbitrary search functions) -/
+theorem C14_fuel_adequate (f : Bytes → Option (Nat × Opener)) (g : TagKind → Bytes → Option TagEnd)
+    (n m : Nat) (s : Bytes) (hn : s.length + 1 ≤ n) (hm : s.length + 1 ≤ m) :
+    scanWith f g n s = scanWith f g m s := scanWith_fuel f g n m s hn hm
+
+/-- Literal padding `p` (no opener inside, not ending in `{` or `\`, non-empty) in front of ANY template `s`
+    that does not begin with an escaped opener (`\{{` …): the result for `p ++ s` is the result for `s` with
+    `p` prepended to the leading TEXT token (or added as a TEXT token when `s` starts with a tag or is
+    empty). Errors are preserved. -/
+theorem C14_padding_tokens {p : Bytes} (hp : Lit p) (hne : p ≠ []) (s : Bytes) (hs : ¬ EscStart s) :
+    scanHtml (p ++ s) = mapOk (extendHead p) (scanHtml s) := by
+  rw [scanHtml_eq_scanOpt, scanHtml_eq_scanOpt]; exact scanOpt_pad hp hne s hs
+
+/-- the excluded case is real: with `s = "\{{"` the padding becomes its own token (the backslash is dropped and
+    no TEXT token precedes the escaped opener in `s` alone) -/
+theorem C14_padding_counterexample_escstart :
+    scanHtml (b "a" ++ b "\\{{") ≠ mapOk (extendHead (b "a")) (scanHtml (b "\\{{")) := by
+  have h1 : scanHtml (b "a" ++ b "\\{{") = .ok [tk TEXT (b "a"), tk TEXT (b "{{"), tk EOF] := by
+    with_unfolding_all rfl
+  have h2 : mapOk (extendHead (b "a")) (scanHtml (b "\\{{")) = .ok [tk TEXT (b "a" ++ b "{{"), tk EOF] := by
+    with_unfolding_all rfl
+  rw [h1, h2]
+  intro h
+  injection h with h
+  have := congrArg List.length h
+  simp at this
+
+/-- special case: in front of a tag or of the end of the template, padding is exactly one more TEXT token -/
+theorem C14_padding_front {p : Bytes} (hp : Lit p) (hne : p ≠ []) {s : Bytes} (hs : TagOrEnd s) :
+    scanHtml (p ++ s) = mapOk (fun ts => tk TEXT p :: ts) (scanHtml s) := by
+  rw [scanHtml_eq_scanOpt, scanHtml_eq_scanOpt, scanOpt_pad_front hp hs, textTok_ne hne]; rfl
+
+/-- padding between constructs: after a literal chunk and a well-formed tag -/
+theorem C14_padding_middle {l : Bytes} (hl : Lit l) {t : Tag} (ht : WfTag t)
+    {p : Bytes} (hp : Lit p) (hne : p ≠ []) (s : Bytes) (hs : ¬ EscStart s) :
+    scanHtml (l ++ t.text ++ (p ++ s)) = mapOk (fun ts => textTok l ++ t.tokens ++ extendHead p ts) (scanHtml s) ∧
+    scanHtml (l ++ t.text ++ s) = mapOk (fun ts => textTok l ++ t.tokens ++ ts) (scanHtml s) := by
+  simp only [scanHtml_eq_scanOpt]
+  refine ⟨?_, scanOpt_step hl ht s⟩
+  rw [scanOpt_step hl ht, scanOpt_pad hp hne s hs, mapOk_mapOk]; rfl
+
+/-- padding by a comment: see `C04_comment_inert_tokens`. -/
+
+-- non-vacuity: the hypotheses are satisfiable by non-trivial data
+example : Lit (b "<p>{ a } 100% \\ b</p>\n") ∧ b "<p>{ a } 100% \\ b</p>\n" ≠ [] := by decide +kernel
+example : ¬ EscStart (b "x \\{{ y }}") ∧ ¬ EscStart (b "{{ y }}") := by decide +kernel
+example : TagOrEnd (b "{%- if x %}") ∧ TagOrEnd [] := by decide +kernel
+example : WfTag ⟨.var, true, b " user.name|upper ", true⟩ := by decide +kernel
+example : scanHtml (b "ab" ++ b "{{ x }}c") =
+    .ok [tk TEXT (b "ab"), tk VAR_START, tk NAME (b "x"), tk VAR_END, tk TEXT (b "c"), tk EOF] := by
+  with_unfolding_all rfl
 
 end Twig
